@@ -335,6 +335,27 @@ class Body:
         return "%s:%s" % (self.file, line if line is not None else self.line_lo)
 
 
+def enumerate_paths(body, start=0, limit=20000, stop_blocks=()):
+    """All normal paths start -> EXIT (loops are cut: a block is visited at most once per path).
+    Yields lists of block indices.  Raises OverflowError beyond `limit` paths."""
+    out = []
+    stack = [(start, [start])]
+    while stack:
+        b, path = stack.pop()
+        for s in body.succ(b):
+            if s == EXIT:
+                out.append(path)
+                if len(out) > limit:
+                    raise OverflowError("too many paths in %s" % body.key)
+            elif s == PANIC or s in path:
+                continue
+            elif s in stop_blocks:
+                out.append(path + [s])
+            else:
+                stack.append((s, path + [s]))
+    return out
+
+
 def callee_name(t):
     """Resolved callee path of a call terminator ('' for indirect calls)."""
     return t.get("callee") or ""
